@@ -28,8 +28,14 @@ def mutex_rules(extra):
         Sub(r"\bec = make_success_code\(\);", "ec->value = pika_error_success;", None),
         Call(r"\butil::(un)?register_lock", "vx_{h1}register_lock({0})", None),
         Sub(r"\b(\w+)\.unlock\(\)", r"ulock_unlock(&\1)", None),
-        Guard(r"std::unique_lock<mutex_type> (\w+)\((\w+)\);", r"struct ulock \1 = ulock_make(&self->\2);", r"ulock_dtor(&\1);", 1),
+        # exactly one guard on the internal lock: the blocking form, or std::try_to_lock (which may fail: vx/prelude/monitor.h)
+        Guard(r"std::unique_lock<mutex_type> (\w+)\((\w+)(\s*,\s*std::try_to_lock)?\);",
+              lambda m: "struct ulock %s = %s(&self->%s);" % (m.group(1), "ulock_try" if m.group(3) else "ulock_make", m.group(2)),
+              r"ulock_dtor(&\1);", 1),
+        Sub(r"\b(\w+)\.owns_lock\(\)", r"ulock_owns(&\1)", None),
+        # owner_id_ is protected by the internal lock: every access is an obligation "internal lock held"
         Members(["owner_id_"]),
+        Sub(r"\bself->owner_id_\b", "(*vx_owner(self))", "+"),
     ]
 
 
